@@ -84,8 +84,8 @@ func (a *AccessNode) Close() {}
 
 // AnnounceOther delivers the events of another keyper configuration (a successor announced ahead of its activation
 // block, or a predecessor seen by the initial sync): its keyper set (the fixture's members in reverse order, one
-// fewer when there are more than two) and, if asked for, an eon key of its own.
-func (a *AccessNode) AnnounceOther(fx *Fixture, index uint64, activation uint64, withKey bool) error {
+// fewer when there are more than two) and, if asked for, an eon key of its own. Both are returned.
+func (a *AccessNode) AnnounceOther(fx *Fixture, index uint64, activation uint64, withKey bool) (*obskeyperdatabase.KeyperSet, *shcrypto.EonPublicKey, error) {
 	members := []common.Address{}
 	for i := len(fx.Addr) - 1; i >= 0; i-- {
 		members = append(members, fx.Addr[i])
@@ -93,21 +93,41 @@ func (a *AccessNode) AnnounceOther(fx *Fixture, index uint64, activation uint64,
 	if len(members) > 2 {
 		members = members[:len(members)-1]
 	}
-	a.Storage.AddKeyperSet(index, &obskeyperdatabase.KeyperSet{
+	set := &obskeyperdatabase.KeyperSet{
 		KeyperConfigIndex:     int64(index),
 		ActivationBlockNumber: int64(activation),
 		Keypers:               shdb.EncodeAddresses(members),
 		Threshold:             int32(len(members)),
-	})
-	if withKey {
-		other := eonkeys.New(hx.NewRand(index*7919+1), index, len(members), len(members))
-		key := new(shcrypto.EonPublicKey)
-		if err := key.Unmarshal(other.Public.Marshal()); err != nil {
-			return err
-		}
-		a.Storage.AddEonKey(index, key)
 	}
-	return nil
+	a.Storage.AddKeyperSet(index, set)
+	if !withKey {
+		return set, nil, nil
+	}
+	other := eonkeys.New(hx.NewRand(index*7919+1), index, len(members), len(members))
+	key := new(shcrypto.EonPublicKey)
+	if err := key.Unmarshal(other.Public.Marshal()); err != nil {
+		return set, nil, err
+	}
+	a.Storage.AddEonKey(index, key)
+	return set, key, nil
+}
+
+// FixtureSet and FixtureKey are what NewAccessNode stored for the fixture's own configuration.
+func FixtureSet(fx *Fixture) *obskeyperdatabase.KeyperSet {
+	return &obskeyperdatabase.KeyperSet{
+		KeyperConfigIndex:     int64(fx.ConfigIndex),
+		ActivationBlockNumber: int64(fx.ActivationBlock),
+		Keypers:               shdb.EncodeAddresses(fx.Addr),
+		Threshold:             int32(fx.T),
+	}
+}
+
+func FixtureKey(fx *Fixture) *shcrypto.EonPublicKey {
+	key := new(shcrypto.EonPublicKey)
+	if err := key.Unmarshal(fx.Keys.Public.Marshal()); err != nil {
+		panic(err)
+	}
+	return key
 }
 
 // ---- statements outside kdb, for the Primev and SnapshotKeyper flavours (DEVIATION 8) ----
